@@ -171,7 +171,7 @@ def py_value(v, heap, memo, hostfns=None):
         else:
             out = memo[a] = {}
             for k, x in obj['items']:
-                out[uncps(k)] = py_value(x, heap, memo, hostfns)
+                out[int(uncps(k[1:])) if k and k[0] == -2 else uncps(k)] = py_value(x, heap, memo, hostfns)
         return out
     if t == 'hostfn':
         return ('hostfn', v['name'])
